@@ -306,6 +306,18 @@ func (p pool) geojson(rt *rapid.T, wide bool) string {
 		// Tile38's circle object: a Point feature with a radius
 		x, y := p.xy(rt)
 		return `{"type":"Feature","geometry":{"type":"Point","coordinates":` + jpos(x, y) + `},"properties":{"type":"Circle","radius":` + fs(p.radius(rt, x, y)) + `,"radius_units":"m"}}`
+	case 5:
+		// circle features nested in a FeatureCollection (1-3, optionally next to an ordinary feature)
+		n := rapid.IntRange(1, 3).Draw(rt, "ncirc")
+		f := make([]string, 0, n+1)
+		for i := 0; i < n; i++ {
+			x, y := p.xy(rt)
+			f = append(f, `{"type":"Feature","geometry":{"type":"Point","coordinates":`+jpos(x, y)+`},"properties":{"type":"Circle","radius":`+fs(p.radius(rt, x, y))+`,"radius_units":"m"}}`)
+		}
+		if rapid.Bool().Draw(rt, "mixed") {
+			f = append(f, `{"type":"Feature","geometry":`+p.geometry(rt, 1, wide)+`,"properties":{}}`)
+		}
+		return `{"type":"FeatureCollection","features":[` + strings.Join(f, ",") + `]}`
 	case 0, 3:
 		return `{"type":"Feature","geometry":` + p.geometry(rt, 0, wide) + `,"properties":{"n":` + strconv.Itoa(rapid.IntRange(0, 9).Draw(rt, "prop")) + `}}`
 	case 1, 4:
